@@ -27,7 +27,8 @@ ASSUMPTIONS = ["queries are spaced >= 2.6 s so that replies are attributable to 
 
 def floors(tier):
     q = tier == "quick"
-    return {"c11.unicast": 10000 if q else 1000000, "c11.multicast": 30000 if q else 3000000, "c11.routing": 20000 if q else 2000000}
+    return {"c11.unicast": 10000 if q else 1000000, "c11.multicast": 30000 if q else 3000000, "c11.routing": 15000 if q else 1500000,
+            "c11.probe_at_once": 3000 if q else 300000}
 
 
 def plan(tier, seed):
@@ -133,7 +134,13 @@ def run_scenario(res: Result, seed: int) -> None:
                 # ---- choose the arrival instant relative to the last sighting of one answering record
                 exp0, _, _ = model.expected([(n, t) for n, t, _ in questions], {})
                 bucket = rng.choice(["quarter-1", "quarter", "quarter+1", "fresh", "old", "any"])
-                await sim.sleep_ms(2600)
+                soon = is_probe and rng.random() < 0.5
+                if soon:
+                    # a probe shortly after other traffic: the records it asks for were multicast less than a second ago
+                    bucket = "probe-soon-after"
+                    await sim.sleep_ms(rng.choice([150, 400, 700, 990]))
+                else:
+                    await sim.sleep_ms(2600)
                 if exp0 and bucket.startswith("quarter"):
                     ident = rng.choice(sorted(exp0, key=repr))
                     rec = zc.cache.get(probe_obj(ident))
@@ -163,7 +170,7 @@ def run_scenario(res: Result, seed: int) -> None:
                 mark = len(sim.net.trace)
                 sim.net.inject_now(host, data, (src_ip, src_port), sock=rsock)
                 await sim.sleep_ms(1400)
-                qdesc = {"questions": questions, "legacy": legacy, "probe": is_probe, "v6": v6, "unicast_delivery": as_unicast, "id": qid, "bucket": bucket}
+                qdesc = {"questions": questions, "legacy": legacy, "probe": is_probe, "v6": v6, "unicast_delivery": as_unicast, "id": qid, "bucket": bucket, "soon": soon}
                 desc["queries"].append(qdesc)
                 evaluate(res, sim, host, model, questions, legacy, is_probe, now, sighting, qid, (src_ip, src_port), rsock, mark, ep, viol, qdesc, layout)
             await azc.async_close()
@@ -232,6 +239,26 @@ def evaluate(res, sim, host, model, questions, legacy, is_probe, now, sighting, 
                 if R.ident_of_wire(r) not in universe:
                     viol("c11.unicast", "unicast_foreign_record", "%r is not a record of this host" % (R.ident_of_wire(r),), **sig)
             got_u.update(R.ident_of_wire(r) for r in m.answers)
+    if is_probe and exact:
+        # "probe queries are answered at once": every record owed to a probe leaves in the very instant the probe arrives
+        res.mon("c11.probe_at_once")
+        at_once_u: Set[Tuple] = set()
+        at_once_m: Set[Tuple] = set()
+        for e in entries:
+            if abs(e["t"] - now) > 1e-6:
+                continue
+            m = wire.parse(e["data"], strict=True)
+            if m.is_response:
+                (at_once_m if e["mcast"] else at_once_u).update(R.ident_of_wire(r) for r in m.answers)
+        late = sorted((want_m - at_once_m) | (want_u - at_once_u), key=repr)
+        if late:
+            when = sorted({round(e["t"] - now, 1) for e in entries for r in wire.parse(e["data"], strict=True).answers if R.ident_of_wire(r) in late})
+            viol("c11.probe_at_once", "probe_answer_delayed", "probe %r: %r not sent in the arrival instant (sent at +%r ms)" % (questions, late[:3], when),
+                 channel=("mcast" if (want_m - at_once_m) else "ucast"), **sig)
+    if qdesc.get("soon"):
+        # replies to earlier queries may still be in flight: only the at-once rule is judged for this query
+        res.cls(sig["src"], "probe-soon-after", layout)
+        return
     res.mon("c11.routing")
     if exact:
         if got_u != want_u:
